@@ -50,7 +50,44 @@ func typeNames(t T, out map[string]bool) {
 	}
 }
 
+// shadowsTParam: in some method of a requested generic interface a final
+// parameter name (per the Scope model; results too under -stub) is spelled
+// like a type parameter of the interface.
+func shadowsTParam(c *Case, p *Prediction) bool {
+	if p == nil {
+		return false
+	}
+	si := -1
+	for _, it := range requested(c) {
+		tps := map[string]bool{}
+		for _, tp := range it.TParams {
+			tps[tp.Name] = true
+		}
+		for _, m := range it.Methods {
+			si++
+			if len(tps) == 0 || si >= len(p.Names) {
+				continue
+			}
+			for _, names := range p.Names[si] {
+				for k, n := range names {
+					if k >= len(m.Params) && !c.Cfg.Stub {
+						break
+					}
+					if tps[n] { // the receiver's type parameters and the parameters share one block
+						return true
+					}
+				}
+			}
+		}
+		if len(it.TParams) > 0 {
+			si++ // the type-parameter scope follows the methods
+		}
+	}
+	return false
+}
+
 func init() {
+	shapeFuncs["names:shadows-tparam"] = shadowsTParam
 	// a user-written parameter name that the generated body or signature still needs
 	shapeFuncs["names:user-shadows"] = func(c *Case, p *Prediction) bool {
 		for _, it := range requested(c) {
